@@ -570,6 +570,39 @@ func checkC17(p *core.Program, r *core.Report) {
 		r.Fail(R2, "address appends", "", "expected the filter append and the merge append")
 	}
 	checkAddressProvenance(p, r, proc, R2)
+	{
+		// addresses are compared by value (String / Equal): the 4-byte and the 16-byte form of one IPv4 address differ as bytes
+		key := "addresses are compared by value, not by byte representation"
+		var bad ssa.Instruction
+		for _, fn := range fns {
+			core.EachInstr(fn, func(in ssa.Instruction) {
+				c := core.Common(in)
+				if c == nil || bad != nil {
+					return
+				}
+				switch core.CalleeName(c) {
+				case "bytes.Equal", "bytes.Compare", "slices.Equal":
+					for _, a := range c.Args {
+						t := a.Type()
+						if ct, ok := a.(*ssa.ChangeType); ok {
+							t = ct.X.Type()
+						}
+						if cv, ok := a.(*ssa.Convert); ok {
+							t = cv.X.Type()
+						}
+						if types.TypeString(t, nil) == "net.IP" {
+							bad = in
+						}
+					}
+				}
+			})
+		}
+		if bad != nil {
+			r.Fail(R2, key, p.Pos(bad.Pos()), "two net.IP values are compared byte-wise: the same IPv4 address arrives as 4 bytes from one source and as 16 bytes from another, is not recognised as known and is stored twice")
+		} else {
+			r.OK(R2, key, p.Pos(proc.Pos()), "no byte-wise comparison of net.IP values in package mdns")
+		}
+	}
 	checkEntryKeys(p, r, proc, fEntries, R1)
 	// only the local SKI identifies the local service: no other TXT value is compared with a field of the manager
 	{
